@@ -150,7 +150,13 @@ def base(qual, is_flusher, params=()):
 
 
 def collect(ex, U, obl):
-    return obl + [Obl('C12/%s/%s' % (U, a), 'C12', s_, c, oc_) for a, s_, c, oc_ in ex.obligations]
+    out = obl + [Obl('C12/%s/%s' % (U, a), 'C12', s_, c, oc_) for a, s_, c, oc_ in ex.obligations]
+    for o_ in out:
+        # every requested write / save is applied exactly once: what C05 (a recording is persisted whole or not at all) and C01 (replay of what
+        # was stored) need from the asynchronous cassette as well
+        if o_.props == ('C12',):
+            o_.props = ('C12', 'C05', 'C01')
+    return out
 
 
 def producer(props=None):
